@@ -103,7 +103,7 @@ func setCurrent(h []string) { curMu.Lock(); curHist = h; curMu.Unlock() }
 // when the search loop would stop by itself before the next transition.
 func run(c *fw.Ctx) {
 	done := make(chan struct{})
-	go func() { defer close(done); search(c); crashPart(c, nil) }()
+	go func() { defer close(done); search(c); concPart(c, nil); crashPart(c, nil) }()
 	grace := time.Until(c.Deadline) + 45*time.Second
 	select {
 	case <-done:
@@ -250,6 +250,12 @@ func maskNames(m uint32) []string {
 }
 
 func replay(c *fw.Ctx, raw json.RawMessage) {
+	var cn concCase
+	if json.Unmarshal(raw, &cn) == nil && cn.Conc != "" {
+		boot()
+		concPart(c, &cn)
+		return
+	}
 	var cc crashCase
 	if json.Unmarshal(raw, &cc) == nil && len(cc.Hist) > 0 {
 		crashPart(c, &cc)
